@@ -1,0 +1,45 @@
+package resource
+
+import "sync"
+
+// publishQueue makes writers publish their change events in the order their writes were committed.
+// A writer takes a ticket while it still holds the resource's write lock, and publishes only when all earlier tickets
+// have been published. Without this two concurrent writers could commit in one order and publish in the other,
+// leaving subscribers with a stale final value.
+type publishQueue struct {
+	mu      sync.Mutex
+	cond    *sync.Cond
+	next    uint64 // the next ticket to hand out
+	serving uint64 // the ticket that may publish now
+}
+
+// ticket returns the caller's place in the queue. Call this while holding the write lock that protects the commit.
+func (q *publishQueue) ticket() uint64 {
+	q.mu.Lock()
+	defer q.mu.Unlock()
+	t := q.next
+	q.next++
+	return t
+}
+
+// wait blocks until it is the turn of ticket t.
+func (q *publishQueue) wait(t uint64) {
+	q.mu.Lock()
+	defer q.mu.Unlock()
+	if q.cond == nil {
+		q.cond = sync.NewCond(&q.mu)
+	}
+	for q.serving != t {
+		q.cond.Wait()
+	}
+}
+
+// done lets the next ticket publish.
+func (q *publishQueue) done() {
+	q.mu.Lock()
+	defer q.mu.Unlock()
+	q.serving++
+	if q.cond != nil {
+		q.cond.Broadcast()
+	}
+}
